@@ -41,6 +41,11 @@ CLAIMED = {
    text=('Theorems for all sizes: shift round trips (and shift 0 = id), vecsym(symvec A)=A for all three storage conventions and symvec(vecsym v)=v for all N, base/dirs <-> polynomial round trip for all shapes/D/P, '
          'sign and determinant of the pivot permutation = (-1)^#{i: piv i != i} for all N and all pivot vectors. The bridge from the list-level pivot model to the permutation, as_utpm and combine_blocks are '
          'tied by correspondence/oracle only (partial); all pivot vectors for N<=4 (quick) / N<=5 (thorough) are enumerated against scipy.linalg.lu_factor.')),
+ 'C16': dict(
+   technique='Lean 4 theorems (iteratedDeriv n f x = closed form, by the chain "order n+1 is the derivative of order n") + correspondence + contour-integral oracle',
+   text=('Theorems for every order n and every point of the domain: iteratedDeriv n f x equals the closed form of the model for exp, exp2, expm1, log, log2/log10, log1p, sqrt, square, negative, reciprocal, '
+         'sin, cos, sinh, cosh, arctanh; gammaln/psi/polygamma and hyperu relative to the first-order relations of their SciPy leaves. arctan, arcsin, arccos, arcsinh, arccosh, erf, erfi and the piecewise '
+         'functions are modelled exactly (Gaussian rationals / finite sums) and tied by correspondence plus an independent Cauchy-integral oracle on the implementation, without an all-n theorem yet (partial).')),
 }
 _todo = 'check under construction in this session: Lean model/theorems and correspondence not committed yet'
 NOT_APPLICABLE = {('C%02d' % i): _todo for i in range(1, 18)}
